@@ -1494,6 +1494,14 @@ class Signal(TypeQualifier):
         assert (
             self._default is not None
         ), f"pushed signal requires default value (name hint='{self._name}')"
+
+        if self._needs_array_elem_assignment(value):
+
+            def assign_push(a, b):
+                a ^= b
+
+            return self._perform_array_elem_assignment(value, assign_push)
+
         inp_value = _decay(value)
         self._value._assign(inp_value)
         if is_primitive(inp_value):
@@ -1609,6 +1617,13 @@ class Variable(TypeQualifier):
 
     @_intrinsic_replacement(value.fset, assignment_spec=(0, 1))
     def _value_setter_replacement(self, value):
+        if self._needs_array_elem_assignment(value):
+
+            def assign_value(a, b):
+                a @= b
+
+            return self._perform_array_elem_assignment(value, assign_value)
+
         # assign value to check wheather operation is allowed
         inp_value = _decay(value)
         self._value._assign(inp_value)
